@@ -270,7 +270,25 @@ def strategy(tier):
 
     @st.composite
     def cases(draw):
-        mode = draw(st.sampled_from(("ctor", "ctor", "df", "template", "template")))
+        mode = draw(st.sampled_from(("ctor", "ctor", "df", "template", "template", "derive", "derive", "derive")))
+        if mode == "derive":
+            dopts = gen.TreeOpts(max_depth=3, bag_ranges=("N", "S"), count_transforms=False, max_bins=6)
+            spec, focus = draw(gen.specs_and_focus(dopts, 5))
+            ra, rb = draw(gen.recipes(spec, max_rows=8, focus=focus)), draw(gen.recipes(spec, max_rows=8, focus=focus))
+            # immutable (JSON-reloaded) operands take other code paths in + / += (no template to build on): half of
+            # the left operands and a quarter of the right ones are reloads
+            ra["reload"] = draw(st.booleans())
+            rb["reload"] = draw(st.integers(0, 3)) == 0
+            return {
+                "mode": "derive",
+                "spec": spec,
+                "a": ra,
+                "b": rb,
+                "c": draw(gen.recipes(spec, max_rows=6, reload_ok=False, focus=focus)),
+                "op": draw(st.sampled_from(("a+b", "a+b", "b+a", "a*f", "f*a", "copy", "zero", "a+=b"))),
+                "f": draw(st.sampled_from((2.0, 0.5, 1.0, 1))),
+                "steps": draw(st.lists(st.tuples(st.sampled_from("abr"), st.sampled_from(("fill", "iadd")), st.integers(0, 5)), min_size=1, max_size=5)),
+            }
         case = {"mode": mode, "rows1": draw(simple_rows()), "rows2": draw(simple_rows()), "numpy": draw(st.booleans())}
         if mode == "ctor":
             case["ctor"] = draw(st.sampled_from(names))
@@ -406,9 +424,71 @@ def run_template(case):
     return {"nontrivial": True, "labels": ["mode:template", "parent:" + case["parent"], "when:" + when] + ["kind:" + k for k in kinds(tspec)]}
 
 
+def run_derive(case):
+    """A pure operation on two reachable states (each possibly a JSON reload), then mutations of operands and result."""
+    from .. import states  # noqa: PLC0415
+
+    spec, op = case["spec"], case["op"]
+    a, b = states.realize(spec, case["a"]), states.realize(spec, case["b"])
+    objs = {"a": a, "b": b}
+    mutable = {"a": not case["a"].get("reload"), "b": not case["b"].get("reload")}
+    before = {k: snapshot(v) for k, v in objs.items()}
+    if op == "a+b":
+        r = a + b
+    elif op == "b+a":
+        r = b + a
+    elif op == "a*f":
+        r = a * case["f"]
+    elif op == "f*a":
+        r = case["f"] * a
+    elif op == "copy":
+        r = a.copy()
+    elif op == "zero":
+        r = a.zero()
+    else:
+        r = operator.iadd(a, b)  # r is a; a and b must still be independent afterwards
+        before["a"] = snapshot(a)
+    sig = {"op": op}
+    if op != "a+=b":
+        for k in ("a", "b"):
+            require(snapshot(objs[k]) == before[k], "interference", lambda: f"{op} changed operand {k}: {norm.fmt(norm.diff(before[k][0], snapshot(objs[k])[0], norm.BITEXACT))}", sig)  # noqa: B023
+        objs["r"] = r
+        mutable["r"] = mutable["b"] if op == "b+a" else mutable["a"]
+    names = sorted(objs)
+    for i, x in enumerate(names):
+        for y in names[i + 1 :]:
+            require(not (walk.identity_set(objs[x]) & walk.identity_set(objs[y])), "shared-mutable-state", lambda: f"after {op}: {x} and {y} share mutable state: {walk.shared(objs[x], objs[y])[:4]}", sig)  # noqa: B023
+    snaps = {k: snapshot(v) for k, v in objs.items()}
+    crit = gen.critical_values(spec)
+    mutated = 0
+    for target, how, n in case["steps"]:
+        if target not in objs:
+            target = "a"
+        t = objs[target]
+        if how == "fill" and mutable[target]:
+            rows = [r_ for r_, w in (case["c"]["fills"] or [])][: n + 1] or [{"x": 0.0, "y": 0.0, "z": 0.0, "w": 1.0, "s": "a", "t": "a", "b": False}]
+            for row in rows:
+                t.fill(row, 1.0)
+        else:
+            objs[target] = operator.iadd(t, states.realize(spec, case["c"]))
+        mutated += 1
+        for k in objs:
+            if k != target:
+                now = snapshot(objs[k])
+                require(now == snaps[k], "interference", lambda: f"after {op}, mutating {target} ({how}) changed {k}: {norm.fmt(norm.diff(snaps[k][0], now[0], norm.BITEXACT))}", sig)  # noqa: B023
+        snaps[target] = snapshot(objs[target])
+    del crit
+    labels = ["mode:derive", "op:" + op] + ["kind:" + k for k in kinds(spec)]
+    if case["a"].get("reload") or case["b"].get("reload"):
+        labels.append("reloaded-operand")
+    return {"nontrivial": mutated > 0, "labels": labels}
+
+
 def check(case):
     lib()
     m = case.get("mode")
+    if m == "derive":
+        return run_derive(case)
     if m == "ctor":
         return run_ctor(case)
     if m == "df":
